@@ -79,6 +79,7 @@ import (
 	"github.com/lni/dragonboat/v4/internal/settings"
 	"github.com/lni/dragonboat/v4/internal/transport"
 	"github.com/lni/dragonboat/v4/internal/utils"
+	"github.com/lni/dragonboat/v4/internal/verifhook"
 	"github.com/lni/dragonboat/v4/internal/vfs"
 	"github.com/lni/dragonboat/v4/raftio"
 	pb "github.com/lni/dragonboat/v4/raftpb"
@@ -1877,6 +1878,7 @@ func (nh *NodeHost) sendMessage(msg pb.Message) {
 	if nh.isPartitioned() {
 		return
 	}
+	verifhook.Send(&msg)
 	if msg.Type != pb.InstallSnapshot {
 		nh.transport.Send(msg)
 	} else {
